@@ -6230,7 +6230,7 @@ bool SoftHSM::RFC5652Unpad(ByteString &padded, size_t blocksize)
 {
 	auto wrappedlen = padded.size();
 
-	if( wrappedlen % blocksize != 0)
+	if( wrappedlen == 0 || wrappedlen % blocksize != 0)
 	{
 		DEBUG_MSG("padded buffer length %d is not a multiple of %d", wrappedlen, blocksize);
 		return false;
